@@ -96,6 +96,41 @@ def size_prefix_detached(s):
 F4B = re.compile(r'\\(begin|end)[ \t\n\r]*(\[|\{[ \t\n\r]|\{[^{}]*[ \t\n\r]\})')
 
 
+_F4B_HEAD = re.compile(r'\\(begin|end)[ \t\n\r]*([\[{])')
+
+
+def f4b_class(s):
+    """Does the input belong to the input class of the recorded finding F4b: an environment name given as
+    a bracket group, or with blanks at the border of the brace group that names it (also when that group
+    is unclosed and runs to the end of the input)?  A failure on such an input is attributed to F4b;
+    every other failing input of the property is a new violation."""
+    for m in _F4B_HEAD.finditer(s):
+        if m.group(2) == '[':
+            if m.group(1) == 'begin':
+                return True
+            continue
+        k = m.end()                      # first character of the name
+        if k < len(s) and s[k] in WS:
+            return True
+        depth, i = 1, k
+        while i < len(s) and depth:
+            if s[i] == '\\' and i + 1 < len(s):
+                i += 2
+                continue
+            if s[i] == '{':
+                depth += 1
+            elif s[i] == '}':
+                depth -= 1
+            i += 1
+        if depth == 0:
+            close = i - 1
+            if close > k and (s[close - 1] in WS):
+                return True
+        elif s and s[-1] in WS:          # unclosed name group, input ends in blanks
+            return True
+    return False
+
+
 def f4b_repair(s):
     """Neutralise the recorded finding F4b in an input: blank-padded or bracket-delimited
     environment names. Returns the repaired string (equal to s if nothing applies)."""
@@ -118,6 +153,27 @@ def hidden_bare(s):
     outside the side condition of C08/C16 ("mandatory arguments ... are brace-delimited") unless
     proven otherwise, so they are skipped."""
     return _HIDDEN.search(s) is not None
+
+
+def name_not_in_source(s, soup):
+    """Some environment's name (the stringified group after \\begin) does not occur in the source: the group
+    that named it contained something the serialiser rewrites (a made-up `{..}` of a bare argument, a dropped
+    spacer). That group is discarded by the parser, so has_bare_args cannot see it; such inputs are outside the
+    side condition of C07c/C08/C16 and are skipped."""
+    from TexSoup import data as D
+
+    def walk(e):
+        if isinstance(e, D.TexNamedEnv) and str(e.name) not in s:
+            return True
+        if isinstance(e, D.TexExpr) and not isinstance(e, D.TexText):
+            for a in e.args:
+                if walk(a):
+                    return True
+            for c in e._contents:
+                if walk(c):
+                    return True
+        return False
+    return walk(soup.expr)
 
 
 def timed_parse(s, tol=0, skip=()):
